@@ -7,8 +7,8 @@ PREFIXES = [[], ["validate"], ["unroll"], ["depth"], ["unroll", "num_qubits"]]
 
 
 def make_cases(rnd, tier, progs):
-    n = 200 if tier == "quick" else 3000
-    ps = progs(60 if tier == "quick" else 300, dict(gates=7, measure=2, reset=1, barrier=2, if_meas=3, custom=2))
+    n = 500 if tier == "quick" else 8000
+    ps = progs(120 if tier == "quick" else 600, dict(gates=7, measure=2, reset=1, barrier=2, if_meas=3, custom=2))
     out = []
     for k in range(n):
         src = ps[k % len(ps)]
@@ -35,6 +35,9 @@ def make_cases(rnd, tier, progs):
             body.append((tgt, "unroll"))
         hist, nobs = modcheck.hist_with_obs(rnd, body, nmod)
         out.append(dict(src=src, hist=hist, nobs=nobs, family="reverse"))
+    out += modcheck.enumerated(rnd, ["reverse_qubit_order"], "reverse-on-every-structured-program",
+                               before=((), ("unroll",), ("validate",)),
+                               after=((), ("reverse_qubit_order",), ("unroll", "reverse_qubit_order"), ("remove_idle_qubits",)))
     return out
 
 
